@@ -1,9 +1,53 @@
 import Driver.Util
+import Mtv.Client.Errors
 namespace Driver.C17
-open Mtv Driver
+open Mtv Mtv.Client Driver
 
-/-- operations of property C17; not built yet -/
+def showParam : Param → String
+  | .none => "none"
+  | .int n => s!"int:{n}"
+  | .str b => s!"str:{toHexD b}"
+
+def showOutcome {α} (f : α → String) : Outcome α → String
+  | .ok a => f a
+  | .err k => s!"err:{k}"
+  | .panic site => s!"panic:{site}"
+
+/-- `id:sym` — data centre `id` configured with the (symbolic) address `sym` -/
+def parseDc? (t : String) : Option (Int × Bytes) :=
+  match t.splitOn ":" with
+  | [i, a] => do
+    let n ← i.toInt?
+    if a.isEmpty then none else pure (n, a.toUTF8.toList)
+  | _ => none
+
+def parseDcs? (s : String) : Option DCList := (splitComma s).mapM parseDc?
+
+def showDecision : Decision → String
+  | .returned => "decision=returned"
+  | .dcNotFound n => s!"decision=notfound dc={n}"
+  | .migrate n a => s!"decision=migrate dc={n} addr={toHexD a}"
+  | .panic site => s!"panic:{site}"
+
+/-- operations of property C17 -/
 def handle : List String → String
+  | ["c17.expand", msg] =>
+    match fromHex? msg with
+    | some m => showOutcome (fun (r : Bytes × Param) => s!"name={toHexD r.1} param={showParam r.2}") (tryExpand m)
+    | none => "bad-op"
+  | ["c17.native", code, msg] =>
+    match code.toInt?, fromHex? msg with
+    | some c, some m =>
+      showOutcome (fun (e : NativeErr) =>
+        s!"code={e.code} msg={toHexD e.message} desc={toHexD e.description} param={showParam e.param}")
+        (rpcErrorToNative c m)
+    | _, _ => "bad-op"
+  | ["c17.process", dcs, code, msg] =>
+    match parseDcs? dcs, code.toInt?, fromHex? msg with
+    | some over, some c, some m =>
+      showOutcome (fun (r : NativeErr × Decision) => showDecision r.2)
+        (onRpcError (setDCList Gen.defaultDCList over) c m)
+    | _, _, _ => "bad-op"
   | _ => "bad-op"
 
 end Driver.C17
